@@ -44,6 +44,35 @@ pub fn cells(tier: Tier) -> Vec<CellPlan> {
     v.push(plan(ticks_3c("C04", 0, q), 1, 2.0));
     // ... with the clients' update ticks on both sides of a varint size boundary (127 | 128)
     v.push(plan(ticks_3c("C04", 125, q), 1, 1.0));
+    // Ticks from the timer policy (`MaxTickRate`): a tick every other frame, events and structural
+    // changes inside one tick span.
+    for (hz, dt) in [(50u16, 10u64), (30, 10)] {
+        let mut cfg = Cfg::default();
+        cfg.events = true;
+        cfg.tick = TickWiring::MaxTickRate(hz);
+        cfg.dt_ms = dt;
+        let c = EvCell {
+            name: format!("c04-timer-{hz}hz-dt{dt}"),
+            property: "C04",
+            cfg,
+            connect_at_start: vec![0],
+            init: vec![Op::Spawn(0, 1 << TA)],
+            alphabet: vec![
+                EvOp::Nop,
+                EvOp::World(Op::Spawn(1, 1 << TA)),
+                EvOp::World(Op::Ins(0, TB)),
+                EvOp::EmitS(SK::E1, Mode::Broadcast, None),
+                EvOp::EmitS(SK::EM, Mode::Broadcast, Some(1)),
+                EvOp::EmitS(SK::T1, Mode::Broadcast, Some(1)),
+            ],
+            rounds: if q { 4 } else { 5 },
+            tick_choice: false,
+            env: EvEnv { hold_updates: 1, hold_events: true, reorder: false, drop_unreliable: false, hold_client_events: false, hold_mutations: false, hold_acks: false, update_latency: 0, update_batch: 0 },
+            oracles: EvOracles { c04: true, c05: true, ..Default::default() },
+            closure_rounds: 8,
+        };
+        v.push(plan(c, if q { 0 } else { 1 }, 1.0));
+    }
     // The first running frame after a (re)start, with a client accepted and an event emitted
     // before it, on a frame without a tick.
     {
